@@ -215,9 +215,13 @@ def check_input_binarize(ctx, case):
         if lm != case["leafmap"]:
             ctx.viol("C08.input_binarize", case, f"leaf assignment changed by binarize(): {lm}")
         if case.get("syn") is not None:
-            ls = {n.name: list(s) for n, s in inp.leaf_syntenies.items()}
+            ls = {n.name: list(s) for n, s in inp.leaf_syntenies.items() if n.is_leaf()}
             if ls != {k: list(v) for k, v in case["syn"].items()}:
                 ctx.viol("C08.input_binarize", case, "leaf syntenies changed by binarize()")
+            extra = {n: list(s) for n, s in inp.leaf_syntenies.items() if not n.is_leaf()}
+            want_extra = {inp.object_tree: list(case["root_order"])} if case.get("root_order") else {}
+            if extra != want_extra:
+                ctx.viol("C08.input_binarize", case, "prescribed root synteny changed or lost by binarize()")
         if bridge.costs_of(inp) != {k: v for k, v in B.c.items()}:
             ctx.viol("C08.input_binarize", case, "costs changed by binarize()")
         if inp.species_lca.tree is not inp.species_lca.tree.get_tree_root():
@@ -311,6 +315,8 @@ def check_e2e(ctx, case):
             ls = {n.name: list(s) for n, s in out.input.leaf_syntenies.items() if n.is_leaf()}
             if ls != {k: list(v) for k, v in case["syn"].items()}:
                 ctx.viol("C08.e2e", case, f"{algo}/{pol}: leaf syntenies of the returned solution differ from the input")
+            if case.get("root_order") and list(out.input.leaf_syntenies.get(out.input.object_tree, ())) != list(case["root_order"]):
+                ctx.viol("C08.e2e", case, f"{algo}/{pol}: the prescribed root synteny is not kept in the returned solution's input")
     if mset is not None and obs_all.exc is None and mn != INF:
         got = [(x, e["S"].clades()) for x, e in zip(SC.canon_set(obs_all), obs_all.ext)]
         cnt = collections.Counter(got)
@@ -396,8 +402,16 @@ def random_poly_case(rng, algo, max_obj, max_sp):
             G, S = _give_names(G, "anc"), _give_names(S, "clade")
         if rng.random() < 0.5:
             G, S = recolour(rng, G), recolour(rng, S)
-        return {"kind": "e2e", "algo": algo, "G": G, "S": S, "leafmap": lm, "costs": gen.random_cost(rng),
+        case = {"kind": "e2e", "algo": algo, "G": G, "S": S, "leafmap": lm, "costs": gen.random_cost(rng),
                 "syn": gen.random_syntenies(rng, list(lm), 3, ordered=ordered, consistent_p=1.0), "named": named}
+        if ordered and named and rng.random() < 0.4:
+            # prescribed root order (possibly with a family that no leaf carries): it must survive the refinement too.
+            # Only with a named root, as in the documented file format (syntenies are keyed by node name); the unnamed
+            # variant is the known finding F-UNNAMED-ROOT-ORDER, replayed from its witness.
+            ro = gen.common_supersequence(rng, case["syn"])
+            if ro is not None:
+                case["root_order"] = ro
+        return case
 
 
 def _give_names(nested, prefix):
@@ -412,6 +426,30 @@ def _give_names(nested, prefix):
         return d
 
     return go(nested)
+
+
+def known(ctx, finding):
+    """Replay the listed witness of F-UNNAMED-ROOT-ORDER; anything else it shows is a violation."""
+    wit = finding["witness"]
+    case = wit["case"]
+    B = bridge.Built(case, named=False)
+    exp = wit["expect"]
+    hits = 0
+    for pol in (ALL, ANY):
+        obs = SC.call(case["algo"], B.inp, pol)
+        ctx.count("evaluations")
+        if obs.exc is not None and all(tok in obs.exc for tok in exp["exception_contains"]):
+            hits += 1
+        elif obs.exc is not None:
+            ctx.viol("C08.e2e", case, f"{case['algo']}/{pol.name} raised on the witness of {finding['id']} in an unlisted way: {obs.exc}")
+    if hits == 2:
+        ctx.known.append(f"{finding['id']} {finding['text']}")
+    else:
+        ctx.notes.append(f"known finding {finding['id']} no longer reproduces")
+        if hits == 0:
+            check_e2e(ctx, case)
+    # control: the same input with a named root is solved and judged normally
+    check_e2e(ctx, dict(case, named=True, G=_give_names(case["G"], "anc"), S=_give_names(case["S"], "clade")))
 
 
 def replay(ctx, case):
